@@ -262,7 +262,13 @@ func (c *Cluster) Down(i int, crash bool) {
 
 // Up restarts peer i on its durable state: new instance, open, Load(-1) (with offline block
 // semantics during the load: see DESIGN.md §2.3.1).
-func (c *Cluster) Up(i int) error {
+func (c *Cluster) Up(i int) error { return c.up(i, true) }
+
+// UpWithoutLoad restarts peer i and opens the database but does not load it: the application
+// goes on using the store as it is (a fresh, empty log over a cache that holds the old heads).
+func (c *Cluster) UpWithoutLoad(i int) error { return c.up(i, false) }
+
+func (c *Cluster) up(i int, load bool) error {
 	k := c.K
 	if c.Stores[i] != nil {
 		return nil
@@ -286,6 +292,11 @@ func (c *Cluster) Up(i int) error {
 	}
 	st := op.Val.(iface.Store)
 	p.Stores[c.Addr] = st
+	if !load {
+		c.Stores[i] = st
+		k.W.Stat("restart-without-load")
+		return nil
+	}
 	// only this call reads without the network (a miss is an answer, not a wait): replication
 	// started meanwhile by head exchanges fetches as usual
 	lop := k.Do(i, "load -1", 400, func() (interface{}, error) {
